@@ -692,32 +692,59 @@ class P(Prop):
         (M, "TV.C02.operate_string_tokens", "string -> tokens: on the rewritten string of any statement 'lhs=e' with plain names operate does what it does on the postfix token list, so T3a-T3d apply to strings"),
         (M, "TV.C02.tree_semantics_pointwise", "T5: under the laws x+s=s+x, x*s=s*x, x*(1/s)=x/s, (1/x)*s=s/x the evaluator's tree semantics (literal folding, s+/sr- tables) equals evaluation observation by observation with numbers as constant vectors"),
         (M, "TV.C02.operate_string_pointwise", "end to end on the model: operate on the rewritten string '#output=e' returns the pointwise value of the tree and leaves the track unchanged"),
-        (M, "TV.C02.operator_objects_agree", "T4: operator objects applied directly return the tree semantics of the one-node expression (a.b, a.number, number.a, f{a})"),
+        (M, "TV.C02.operator_objects_agree", "T4: operator objects applied directly return the tree semantics of the one-node expression (a.b, a.number, number.a, f{a}) for the 7 binary operators, their 14 scalar forms, the 12 pointwise/void functions and the 12 aggregates"),
+        (M, "TV.C02.evalRPN_postfix_error", "T6: when the tree semantics is an error (zero division by a number, 0**negative, complex/overflowing power, SQRT of a negative, EXP overflow, function of a number-valued sub-expression) the stack machine raises the same error, having added temporaries only"),
+        (M, "TV.C02.operate_error", "T6': operate on the postfix form of 'lhs=e' then raises that error and, the temporaries being purged, leaves the track exactly as it was"),
+        (M, "TV.C02.operate_string_error", "T6'': the same from the rewritten string"),
+        (M, "TV.C02.preprocess_source_assign", "T7a: the rewriting chain of __evaluate (spaces, ** .* { } >> <<, reflexive forms, unary signs, f( -> f@( over both operator tables) maps the source string of 'lhs=e' exactly to the printed parser tree of the desugared statement, void=True"),
+        (M, "TV.C02.preprocess_source_value", "T7b: without '=' the same with the prefix '#output = ' (two spaces), void=False"),
+        (M, "TV.C02.tokens_of_preprocessed_source", "T7c: makeRPN(preprocess(source)) = #output, postfix(desugared tree), ="),
+        (M, "TV.C02.operate_source_statement", "T7: Track.operate on the source string 'lhs=e' does what it does on the postfix tokens lhs, postfix(e), = (so T3b-T3d and T6' apply to source strings)"),
+        (M, "TV.C02.operate_source_value", "C02 end to end from the source string: operate(src e) returns the tree semantics at every observation and leaves the track exactly as it was"),
+        (M, "TV.C02.operate_source_pointwise", "the same with the pointwise value (ordinary arithmetic observation by observation) under the laws of T5"),
+        (M, "TV.C02.operate_source_assign_new", "from the source string 'lhs=e', new name: the value is stored under lhs, nothing is returned, nothing else changes"),
+        (M, "TV.C02.operate_source_error", "from the source string 'lhs=e': a tree-semantics error is raised as such and the track is left exactly as it was"),
+        (M, "TV.C02.operate_source_value_error", "the same without '='"),
+        (M, "TV.C02.operate_source_spaces", "operate on a string = operate on the string without its blanks (any spacing of the source)"),
+        (M, "TV.C02.operate_source_starstar", "'**' written for '^'"),
+        (M, "TV.C02.operate_source_reflexive", "reflexive forms 'lhs op= e' (op in + - * / ^ % !) are 'lhs = lhs op (e)'"),
+        (M, "TV.C02.operate_source_bare_minus", "a bare unary minus at the start, after '=', '(' or '{' is the parenthesised '(0-...)' form (one per application)"),
     ]
     partial = []
     open_statements = [
-        "the character-level rewriting chain (preprocess: replace chains, reflexive operators, unary signs, f( -> f@(, '#output = ' prefix with its spaces) is tied to the theorems by the correspondence only (streams str/expr), not by a theorem; the theorems start from the rewritten string",
-        "floating point: the laws of T5 (x*(1/s)=x/s, (1/x)*s=s/x) hold in exact arithmetic (shown for rationals with NaN) but only up to rounding for IEEE doubles; agreement of the computed doubles with ordinary arithmetic is sampled by the transfer check (rel. 1e-9) against the independent Python oracle",
-        "the definitions of the functions (I D D2 ABS SQRT SUM AVG MIN MAX MEDIAN MAD STD) are taken as coded in both denoteM and denote; their agreement with the documented formulas is checked by the Python oracle (statistics.median, pstdev, ...) in the transfer check, not proved",
-        "error propagation (when the tree semantics is an error the machine raises the same error) is exercised by the correspondence, not proved",
+        "floating point: the laws of T5 (x*(1/s)=x/s, (1/x)*s=s/x) hold in exact arithmetic (shown for rationals with NaN) but only up to rounding for IEEE doubles - and not at all when the reciprocal overflows (subnormal divisor, class scalar-division-reciprocal-overflow); agreement of the computed doubles with ordinary arithmetic is decided by the transfer check against the independent Python oracle (IEEE evaluation of the documented definitions with a running error bound, relative tolerance 1e-9 at every magnitude)",
+        "the definitions of the functions (I D D2 ABS SQRT LOG DIODE SIGN EXP COS SIN TAN, SUM AVG VAR STD MSE RMSE MAD MIN MAX MEDIAN ARGMIN ARGMAX) are taken as coded in both denoteM and denote; their agreement with the documented formulas is checked by the Python oracle in the transfer check, not proved (it fails at the ends of the double range: classes abs-of-infinity, extremum-beyond-sentinel)",
+        "source strings (T7): several bare unary minuses in one string, a sign directly after + or - ('a+-b', 'a--b'), the ' shorthand and names ending with '.' are outside the proved grammar (covered by the correspondence streams expr/str); error propagation (T6) excludes unbound names, unknown function names and a function applied to a bare number token, where the machine raises another error than the tree semantics (counter-examples in Lemmas/ExprErr.lean)",
     ]
     modelled = ("Track.__evaluate (replace chain, __specialOpChar, __convertReflexOperator, __unaryOp, f( -> f@( loops, #output prefix), "
                 "utils.makeRPN at character level, Track.__prime/__double_prime, Track.__evaluateRPN, Track.__applyOperation, the purge of "
                 "Track.operate(str), create/update/remove/getAnalyticalFeature and addListToAF as an insertion-ordered name->column table, "
                 "operators Adder Substracter Multiplier Divider Power Above Below, ScalarAdder ScalarSubstracter ScalarRevSubstracter "
                 "ScalarMuliplier ScalarDivider ScalarRevDivider(Inverser) ScalarPower ScalarRevPower ScalarAbove/Below/RevAbove/RevBelow, "
-                "Integrator Differentiator SecondOrderFiniteDiff Rectifier Sqrt, Sum Averager Min Max Median Mad Variance/StdDev")
+                "Integrator Differentiator SecondOrderFiniteDiff Rectifier Sqrt Log (with its track[out]=temp storing and None result) Diode Sign "
+                "Exp Cos Sin Tan (through Apply), Sum Averager Variance StdDev Mse Rmse Mad Min Max Median Argmin Argmax; Track.operate(operator, ...) "
+                "with the default output name. Not modelled (outside the property's operator list + - * / ^ < >): % (Modulo, s%, sr%), "
+                ".* / ! (Filter), >> << (ShiftCircular, s& s$); their strings are compared up to the parser only (stream str)")
     trusted = ["float(), str.replace/split/strip, numpy.argsort (NaN last), math.sqrt, float ** float are modelled by contract",
                "the feature table is modelled as an insertion-ordered association list (its index-remapping representation is C01's subject)"]
-    rule = ("expression trees over names {a,b,x,y,z,t,idx}, literals {0,1,2,0.5,(3,4,0.25,10 in the random stream)}, operators + - * / ^ < >, "
+    rule = ("expression trees over names {a,b,x,y,z,t,idx,speed_2}, literals {0,1,2,0.5,(3,4,0.25,10 in the random stream)} and decimal literals reaching the "
+            "ends of the double range (2.5e-309 ... 1e308, 2**53+1, 30-digit integers, an infinite one), operators + - * / ^ < >, "
             "unary minus (parenthesised form and the bare positions: start, after =, ( and {, after + or -), redundant parentheses, the "
-            "functions I D D2 ABS SQRT SUM AVG MIN MAX MEDIAN MAD STD and the ' shorthand; all trees of depth <= 2 (x lhs none/new/existing/"
-            "coordinate), depth <= 3 over a small alphabet, random to depth 6; reflexive forms a+=e; vectors with 0, negatives, equal values, NaN; "
-            "tracks of 1..5 observations; optional spaces and ** for ^; entry point Track.operate(expr) or Track[expr]. Cases on which ordinary arithmetic gives no value (negative base with "
-            "fractional exponent, 0 to a negative power, sqrt of a negative, |value| > 1e12) are not generated; a division by zero may yield NaN or "
+            "functions I D D2 ABS SQRT LOG DIODE SIGN EXP COS SIN TAN, SUM AVG VAR STD MSE RMSE MAD MIN MAX MEDIAN ARGMIN ARGMAX and the ' shorthand; "
+            "all trees of depth <= 2 (x lhs none/new/existing/coordinate), depth <= 3 over a small alphabet, random to depth 6; reflexive forms a+=e; "
+            "tracks of 1..5 observations of three kinds: small values with 0, negatives, equal values, NaN; 'scaled' = a small pattern times one "
+            "magnitude anywhere between 5e-324 and 1.8e308 (subnormals, below machine epsilon, beyond 2**53, near overflow); 'wide' = independent "
+            "values over the whole double range with +-0.0, +-inf, NaN; optional spaces and ** for ^; entry points Track.operate(expr), Track.op(expr), "
+            "Track[expr]; sequences: one or two earlier statements run on the same track, the judged one may read what they wrote. "
+            "The oracle evaluates the documented definitions with IEEE doubles and a running bound on the rounding error, and judges with a relative "
+            "tolerance (1e-9 of the value + 8 bounds) at every magnitude. Cases on which ordinary arithmetic gives no value and Python raises "
+            "(negative base with fractional exponent, 0 to a negative power, overflow of ** or EXP, sqrt of a negative, COS of inf) are not generated "
+            "as judged cases (they go to the correspondence-only stream); observations the definitions leave open (LOG of a non-positive, SIGN of 0, a "
+            "comparison decided by rounding, a finite result beyond the double range) are not judged; a division by zero may yield NaN or "
             "ZeroDivisionError; aggregates of no valid value are unconstrained. Separate streams: the parser alone on printed strings (rpn), the "
-            "rewriting functions and the parser on arbitrary strings (str, tie only), operator objects applied directly (op), strings outside the "
-            "grammar (malformed, tie only). non-trivial = expression of depth >= 2 / parser input of depth >= 3 / any operator-object case")
+            "rewriting functions and the parser on arbitrary strings (str, tie only), operator objects applied directly with explicit and default "
+            "output name and scalars of every magnitude (op), strings outside the grammar (malformed, tie only). "
+            "non-trivial = expression of depth >= 2 / parser input of depth >= 3 / any operator-object case")
 
     # ---------------------------------------------------------------- setup
     def setup(self):
@@ -871,14 +898,16 @@ class P(Prop):
 
     def exhaustive_scopes(self, tier):
         if tier == "thorough":
-            return ["every tree of depth <= 2 over names {a,b,x,t,idx}, literals {0,1,2,0.5}, operators + - * / ^ < >, unary minus and the 12 functions, "
+            return ["every tree of depth <= 2 over names {a,b,x,t,idx}, literals {0,1,2,0.5}, operators + - * / ^ < >, unary minus and the 24 functions, "
                     "x 4 left-hand sides (none, new, existing, coordinate) x 2 sign styles, on 3 tracks each",
                     "every tree of depth <= 3 over {a,b,2} with + - * / ^ < >, unary minus, D, SUM (about 40 k programmes), one track each",
                     "parser: the postfix form of every one of those strings",
-                    "every 'l<(p q r)', 'l>(p q r)' (parenthesis directly after a comparison) with l in {a,2,x,D{b}}, q in + - * / ^ < >, p,r in {a,b,1}, x 3 left-hand sides, and the mirrored '(p q r)<l'"]
-        return ["every tree of depth <= 2 over names {a,b,x,t,idx}, literals {0,1,2,0.5}, operators + - * / ^ < >, unary minus and the 12 functions, "
+                    "every 'l<(p q r)', 'l>(p q r)' (parenthesis directly after a comparison) with l in {a,2,x,D{b}}, q in + - * / ^ < >, p,r in {a,b,1}, x 3 left-hand sides, and the mirrored '(p q r)<l'",
+                    "every tree of depth <= 2 again, 4 times, on tracks of the scaled / wide kinds (values over the whole double range)"]
+        return ["every tree of depth <= 2 over names {a,b,x,t,idx}, literals {0,1,2,0.5}, operators + - * / ^ < >, unary minus and the 24 functions, "
                 "x 4 left-hand sides (none, new, existing, coordinate), one track each",
                 "every 'l<(p q r)', 'l>(p q r)' (parenthesis directly after a comparison) with l in {a,2,x,D{b}}, q in + - * / ^ < >, p,r in {a,b,1}, x 3 left-hand sides, and the mirrored '(p q r)<l'",
+                "every tree of depth <= 2 again on a track of the scaled / wide kinds (values over the whole double range)",
                 ]
 
     LHS = [None, "c", "a", "x"]
